@@ -3,15 +3,15 @@
   that must keep them in step with the primary data (property C11).
 
   Cached items (one `Item` each) and where they live:
-    * `TrajectoryPrediction.occupancy_set`            prediction/prediction.py:290-298 (cached_property),
-        `_invalidate_occupancy_set` :295-298, setters :305-328, :367-370, `translate_rotate` :372-387
+    * `TrajectoryPrediction.occupancy_set`            prediction/prediction.py:290-293 (cached_property),
+        `_invalidate_occupancy_set` :295-298, setters :305-329, :367-370, `translate_rotate` :372-388
     * `Obstacle._initial_occupancy_shape`             scenario/obstacle.py:240-255 (recomputed in the setter),
         `StaticObstacle.translate_rotate` :401-417, `DynamicObstacle.translate_rotate` :644-663,
         `update_initial_state` :665-712, `update_prediction` :714-725
-    * `Lanelet._polygon`, `_distance`, `_inner_distance`   scenario/lanelet.py:147-150, 293-314, 603-656
+    * `Lanelet._polygon`, `_distance`, `_inner_distance`   scenario/lanelet.py:147-150, 293-314, 603-659
     * `LaneletNetwork._buffered_polygons` / `_strtee` / `_lanelet_id_index_by_id`
-                                                     scenario/lanelet.py:1279-1315, 1565-1610, 1783-1805, 1933-1969
-    * `TrafficLightCycle._cycle_init_timesteps`       scenario/traffic_light.py:140-178
+                                                     scenario/lanelet.py:1279-1318, 1568-1613, 1786-1808, 1920-1978
+    * `TrafficLightCycle._cycle_init_timesteps`       scenario/traffic_light.py:138-185
 
   Primary data are represented by *version tokens* (naturals handed out by the caller: a field that is
   overwritten gets a new token), a cache slot by the tokens it was computed from.  So the model says, for
@@ -110,7 +110,7 @@ inductive Mut where
   | predSetShape | predSetTrajectory | predSetWheelbase | predSetAssignment | predTranslateRotate
   | obsSetInitialState | obsSetShape | obsTranslateRotate | obsSetPrediction | obsUpdateInitialState
   | lanTranslateRotate | lanConvert2d
-  | netAddLanelet | netRemoveLanelet | netTranslateRotate | netConvert2d | netDeepcopy | netPickle
+  | netAddLanelet | netAddFromNetwork | netRemoveLanelet | netTranslateRotate | netConvert2d | netDeepcopy | netPickle
   | cycSetElements | cycSetOffset | cycSetActive
   deriving DecidableEq, Repr, Inhabited
 
@@ -136,9 +136,9 @@ def reads : Item → List Field
 def table : List Row := [
   -- TrajectoryPrediction.occupancy_set (prediction.py)
   ⟨.occupancySet, .predSetShape,        [.predShape],         .drop⟩,   -- :305-314 `_invalidate_occupancy_set()`
-  ⟨.occupancySet, .predSetTrajectory,   [.predTrajectory],    .drop⟩,   -- :321-328
+  ⟨.occupancySet, .predSetTrajectory,   [.predTrajectory],    .drop⟩,   -- :321-329
   ⟨.occupancySet, .predSetWheelbase,    [.predWheelbaseDead], .drop⟩,   -- :367-370 (writes `_wheelbase_lenghts`, which nothing reads)
-  ⟨.occupancySet, .predSetAssignment,   [.predAssignment],    .keep⟩,   -- :335-360
+  ⟨.occupancySet, .predSetAssignment,   [.predAssignment],    .keep⟩,   -- :335-361
   ⟨.occupancySet, .predTranslateRotate, [.predTrajectory],    .drop⟩,   -- :372-388 `_invalidate_occupancy_set()`  (was `keep` before fix 0f589c7)
   -- the same cache reached through the owning obstacle / scenario (obstacle.py:644-663, scenario.py:1297-1314)
   ⟨.occupancySet, .obsTranslateRotate,  [.predTrajectory],    .drop⟩,   -- delegates to prediction.translate_rotate
@@ -150,14 +150,14 @@ def table : List Row := [
   ⟨.initialOccupancy, .obsTranslateRotate,    [.obsInitialState], .recompute⟩,  -- :417, :663 through the setter
   ⟨.initialOccupancy, .obsSetPrediction,      [.obsPrediction],   .keep⟩,       -- :561-568, :714-725
   ⟨.initialOccupancy, .obsUpdateInitialState, [.obsInitialState, .obsPrediction, .obsHistory], .recompute⟩, -- :698 through the setter
-  -- Lanelet (lanelet.py:603-656)
+  -- Lanelet (lanelet.py:603-659)
   ⟨.laneletPolygon,       .lanTranslateRotate, [.lanVertices, .lanFootprint], .recompute⟩,  -- :640
   ⟨.laneletPolygon,       .lanConvert2d,       [.lanVertices, .lanIntrinsic], .recompute⟩,  -- :656
   ⟨.laneletDistance,      .lanTranslateRotate, [.lanVertices, .lanFootprint], .keep⟩,       -- lengths are motion-invariant
   ⟨.laneletDistance,      .lanConvert2d,       [.lanVertices, .lanIntrinsic], .drop⟩,       -- :658-659 (was `keep` before fix 960c2de)
   ⟨.laneletInnerDistance, .lanTranslateRotate, [.lanVertices, .lanFootprint], .keep⟩,
   ⟨.laneletInnerDistance, .lanConvert2d,       [.lanVertices, .lanIntrinsic], .drop⟩,       -- :658-660 (was `keep` before fix 960c2de)
-  -- the lanelet caches reached through the network / scenario (lanelet.py:1933-1969)
+  -- the lanelet caches reached through the network / scenario (lanelet.py:1936-1978, scenario.py:1297-1327)
   ⟨.laneletPolygon,       .netTranslateRotate, [.lanVertices, .lanFootprint], .recompute⟩,
   ⟨.laneletPolygon,       .netConvert2d,       [.lanVertices, .lanIntrinsic], .recompute⟩,
   ⟨.laneletDistance,      .netTranslateRotate, [.lanVertices, .lanFootprint], .keep⟩,
@@ -165,16 +165,17 @@ def table : List Row := [
   ⟨.laneletInnerDistance, .netTranslateRotate, [.lanVertices, .lanFootprint], .keep⟩,
   ⟨.laneletInnerDistance, .netConvert2d,       [.lanVertices, .lanIntrinsic], .drop⟩,       -- through Lanelet.convert_to_2d
   -- LaneletNetwork spatial index (lanelet.py)
-  ⟨.networkIndex, .netAddLanelet,      [.netLaneletSet], .recompute⟩,  -- :1783-1805 entry of the new lanelet + tree
-  ⟨.networkIndex, .netRemoveLanelet,   [.netLaneletSet], .recompute⟩,  -- :1597-1610
-  ⟨.networkIndex, .netTranslateRotate, [.lanVertices, .lanFootprint], .recompute⟩,  -- :1933-1962 (was `keep` before fix 558dda9)
-  ⟨.networkIndex, .netConvert2d,       [.lanVertices, .lanIntrinsic], .keep⟩,  -- :1958-1969 (x, y unchanged; shapely predicates ignore z)
-  ⟨.networkIndex, .netDeepcopy,        [],               .keep⟩,       -- :1301-1315 tree rebuilt from the copied `_buffered_polygons`
-  ⟨.networkIndex, .netPickle,          [],               .keep⟩,       -- :1292-1299 the same
-  -- TrafficLightCycle._cycle_init_timesteps (traffic_light.py:140-171)
-  ⟨.cycleInit, .cycSetElements, [.cycElements], .drop⟩,  -- :145-148 (was `keep` before fix 2b90567)
-  ⟨.cycleInit, .cycSetOffset,   [.cycOffset],   .drop⟩,  -- :155-158 (was `keep` before fix 2b90567)
-  ⟨.cycleInit, .cycSetActive,   [.cycActive],   .keep⟩   -- :163-165
+  ⟨.networkIndex, .netAddLanelet,      [.netLaneletSet], .recompute⟩,  -- :1786-1808 entry of the new lanelet + tree
+  ⟨.networkIndex, .netAddFromNetwork,  [.netLaneletSet], .recompute⟩,  -- :1920-1934 add_lanelets_from_network: adds with rtree=False, then one rebuild
+  ⟨.networkIndex, .netRemoveLanelet,   [.netLaneletSet], .recompute⟩,  -- :1600-1613
+  ⟨.networkIndex, .netTranslateRotate, [.lanVertices, .lanFootprint], .recompute⟩,  -- :1936-1965 (was `keep` before fix 558dda9)
+  ⟨.networkIndex, .netConvert2d,       [.lanVertices, .lanIntrinsic], .keep⟩,  -- :1967-1978 (x, y unchanged; shapely predicates ignore z)
+  ⟨.networkIndex, .netDeepcopy,        [],               .keep⟩,       -- :1304-1318 tree rebuilt from the copied `_buffered_polygons`
+  ⟨.networkIndex, .netPickle,          [],               .keep⟩,       -- :1295-1302 the same
+  -- TrafficLightCycle._cycle_init_timesteps (traffic_light.py:138-178)
+  ⟨.cycleInit, .cycSetElements, [.cycElements], .drop⟩,  -- :143-146 (was `keep` before fix 2b90567)
+  ⟨.cycleInit, .cycSetOffset,   [.cycOffset],   .drop⟩,  -- :153-156 (was `keep` before fix 2b90567)
+  ⟨.cycleInit, .cycSetActive,   [.cycActive],   .keep⟩   -- :163-165 (`active` is not read by the cumulative time steps)
 ]
 
 /-- Lookup; a (cache, mutator) pair without a row does not touch the cache at all. -/
@@ -435,7 +436,7 @@ def Lan.move (m : Mut) (l : Lan) (v : Nat) : Except Err Lan :=
                 dist := (act .laneletDistance m).apply l'.intr l.dist,
                 inner := (act .laneletInnerDistance m).apply l'.intr l.inner }
 
-/-- `Lanelet.convert_to_2d` (lanelet.py:642-656). -/
+/-- `Lanelet.convert_to_2d` (lanelet.py:642-659). -/
 def Lan.flatten (m : Mut) (l : Lan) (v : Nat) : Lan :=
   let l' := if l.is3d then { l with geo := v, intr := v, is3d := false } else l
   { l' with poly := (act .laneletPolygon m).apply l'.geo l.poly,
@@ -493,6 +494,7 @@ def moveAll (v : Nat) : List (Nat × Lan) → List (Nat × Lan) × Option Err
 
 inductive NetOp where
   | add (id : Nat) (l : Lan) (rtree : Bool)
+  | addFrom (ls : List (Nat × Lan))
   | remove (id : Nat) (rtree : Bool)
   | translateRotate (v : Nat)
   | convert2d (v : Nat)
@@ -512,28 +514,42 @@ inductive NetAns where
   | tok (v : Nat)
   deriving DecidableEq, Repr, Inhabited
 
+/-- `add_lanelet` (lanelet.py:1786-1808): refuses an id that is already there. -/
+def Net.addOne (n : Net) (id : Nat) (l : Lan) (rtree : Bool) : Bool × Net :=
+  match assocGet id n.lanelets with
+  | some _ => (false, n)
+  | none =>
+    let n' := { n with lanelets := n.lanelets ++ [(id, l)], buffered := n.buffered ++ [(id, l.xy)] }
+    (true, if rtree then n'.createTree else n')
+
+/-- The loop of `add_lanelets_from_network` (lanelet.py:1929-1931): `flag = flag and self.add_lanelet(la, rtree=False)` —
+    `and` short-circuits, so after the first refused lanelet nothing more is added. -/
+def Net.addAll (n : Net) : List (Nat × Lan) → Bool → Bool × Net
+  | [], flag => (flag, n)
+  | (id, l) :: r, flag =>
+    if flag then
+      let (b, n') := n.addOne id l false
+      Net.addAll n' r b
+    else (false, n)
+
 def Net.step (n : Net) : NetOp → NetAns × Net
-  | .add id l rtree =>                    -- lanelet.py:1783-1805
-    match assocGet id n.lanelets with
-    | some _ => (.bool false, n)
-    | none =>
-      let n' := { n with lanelets := n.lanelets ++ [(id, l)], buffered := n.buffered ++ [(id, l.xy)] }
-      (.bool true, if rtree then n'.createTree else n')
-  | .remove id rtree =>                   -- lanelet.py:1597-1610
+  | .add id l rtree => let (b, n') := n.addOne id l rtree; (.bool b, n')
+  | .addFrom ls => let (b, n') := n.addAll ls true; (.bool b, n'.createTree)   -- lanelet.py:1920-1934
+  | .remove id rtree =>                   -- lanelet.py:1600-1613
     let n' := match assocGet id n.lanelets with
       | some _ => { n with lanelets := assocErase id n.lanelets, buffered := assocErase id n.buffered }
       | none => n
     (.unit, if rtree then n'.createTree else n')
-  | .translateRotate v =>                 -- lanelet.py:1933-1956
+  | .translateRotate v =>                 -- lanelet.py:1936-1965
     let (ls, e) := moveAll v n.lanelets
     match e with
     | some e => (.err e, { n with lanelets := ls })
     | none => (.unit, Net.reindex .netTranslateRotate n { n with lanelets := ls })
-  | .convert2d v =>                       -- lanelet.py:1958-1969
+  | .convert2d v =>                       -- lanelet.py:1967-1978
     (.unit, Net.reindex .netConvert2d n { n with lanelets := n.lanelets.map (fun p => (p.1, p.2.flatten .netConvert2d v)) })
-  | .deepcopy => (.unit, (Net.reindex .netDeepcopy n n).createTree)   -- lanelet.py:1301-1315 (we continue on the copy)
-  | .pickle => (.unit, (Net.reindex .netPickle n n).createTree)       -- lanelet.py:1292-1299
-  | .qFind =>                             -- lanelet.py:1971-2010
+  | .deepcopy => (.unit, (Net.reindex .netDeepcopy n n).createTree)   -- lanelet.py:1304-1318 (we continue on the copy)
+  | .pickle => (.unit, (Net.reindex .netPickle n n).createTree)       -- lanelet.py:1295-1302
+  | .qFind =>                             -- lanelet.py:1980-2019
     match n.tree with
     | none => (.err .attr, n)
     | some t => (.index t, n)
@@ -592,7 +608,7 @@ def Lan.run (l : Lan) : List LanOp → List NetAns × Lan
 /-! ## TrafficLightCycle with its real data -/
 
 open CR.TL in
-/-- `get_state_at_time_step` (traffic_light.py:173-178) reading a given `_cycle_init_timesteps` array:
+/-- `get_state_at_time_step` (traffic_light.py:180-185) reading a given `_cycle_init_timesteps` array:
     the offset and the element list are read from the object, the cumulative array from the cache. -/
 def stateAtWith (init : List Int) (es : List Elem) (off t : Int) : Res Nat :=
   match pyGet? init (-1) with
